@@ -36,7 +36,7 @@ func init() {
 		Run:   run,
 		Setup: func(c *core.Ctx) { geom.VerifSimplifyHook = hook },
 		Floors: func(t string) map[string]int64 {
-			return map[string]int64{"len.0": 20, "len.1": 20, "len.2": 20, "len.3": 20, "simple_input.judged": 3000, "dropped_vertices.checked": 10000, "shape.hook": 500, "shape.spiral": 500,
+			return map[string]int64{"len.0": 20, "len.1": 20, "len.2": 20, "len.3": 20, "simple_input.judged": 3000, "dropped_vertices.checked": 10000, "shape.hook": 500, "shape.spiral": 500, "shape.out_and_back": 500,
 				"tol.zero": 500, "tol.inf": 500, "storage.members_share_one_backing_array": 1000, "polygon.rings_unclosed": 500, "revisit.judged": 500, "boxwalk.simple_judged": 50000, "boxwalk.tail_returns_into_pocket": 15000, "boxwalk.vertices_dropped": 25000, "multi.members_independent": 500, "polygon.rings": 500, "hook.steps_seen": 10000}
 		},
 	})
@@ -59,6 +59,9 @@ func hook(outLen, curveLen int) {
 func dist(a, b geom.Point) float64 { return math.Hypot(a.X-b.X, a.Y-b.Y) }
 
 // genCurve returns a curve of about n vertices and its shape label.
+// tolHint is set by genCurve for shapes that are aimed at one tolerance (0 otherwise).
+var tolHint float64
+
 func genCurve(r *gen.R, n int) ([]geom.Point, string) {
 	scale := math.Pow(10, r.Range(-2, 3))
 	ox, oy := r.Range(-10, 10)*scale, r.Range(-10, 10)*scale
@@ -68,7 +71,8 @@ func genCurve(r *gen.R, n int) ([]geom.Point, string) {
 		ox, oy = r.Range(-180, 180), r.Range(-85, 85)
 	}
 	pts := make([]geom.Point, 0, n)
-	shape := []string{"simple_walk", "simple_walk", "monotone", "zigzag", "spiral", "hook", "hook", "collinear", "random", "wedge"}[r.Intn(10)]
+	shape := []string{"simple_walk", "simple_walk", "monotone", "zigzag", "spiral", "hook", "hook", "collinear", "random", "wedge", "out_and_back"}[r.Intn(11)]
+	tolHint = 0
 	crosses := func(a, b geom.Point) bool {
 		m := len(pts)
 		for i := 0; i+1 < m; i++ {
@@ -166,6 +170,27 @@ func genCurve(r *gen.R, n int) ([]geom.Point, string) {
 			pts = append(pts, geom.Point{X: ox + t*dx + jt*width*t/scale*dy, Y: oy + t*dy - jt*width*t/scale*dx})
 		}
 		pts = append([]geom.Point{{X: ox, Y: oy}}, pts...)
+	case "out_and_back":
+		// out along a shallow roof A-B-C, down at the far end, and back underneath it on a segment S-T
+		// that rises through the chord A-C at a very shallow angle while staying below the roof: the
+		// chord that would replace the roof (B is within the tolerance) crosses S-T at 1e-5 .. 1e-3 rad
+		L := scale * r.Range(0.5, 2)
+		th := r.Range(0, 2*math.Pi)
+		h := L * math.Pow(10, r.Range(-5, -3)) // height of the roof
+		x1 := r.Range(0.6, 0.95)                // position of its ridge
+		t := r.Range(0.3, 0.55)                 // S-T ends at t*L, where the roof is at h*t/x1
+		e2 := h * t / x1 * r.Range(0.2, 0.8)
+		e1 := h * r.Range(0.5, 3)
+		s0 := r.Range(0.02, 0.2)
+		loc := []geom.Point{{X: 0, Y: 0}, {X: x1 * L, Y: h}, {X: L, Y: 0}, {X: L * 1.001, Y: -20 * h}, {X: s0 * L, Y: -e1}, {X: t * L, Y: e2}}
+		if n > 6 {
+			loc = append(loc, geom.Point{X: t * L * r.Range(0.5, 0.9), Y: -40 * h})
+		}
+		co, si := math.Cos(th), math.Sin(th)
+		for _, q := range loc {
+			pts = append(pts, geom.Point{X: ox + co*q.X - si*q.Y, Y: oy + si*q.X + co*q.Y})
+		}
+		tolHint = h * r.Range(1.2, 4)
 	case "random":
 		for i := 0; i < n; i++ {
 			pts = append(pts, geom.Point{X: ox + scale*r.Range(-1, 1), Y: oy + scale*r.Range(-1, 1)})
@@ -497,6 +522,9 @@ func run(c *core.Ctx, idx int) {
 		c.Count("tol.inf")
 	default:
 		tol = diam * math.Pow(10, r.Range(-3, 0))
+	}
+	if tolHint > 0 && !revisit && r.Chance(0.8) {
+		tol = tolHint
 	}
 	simpleIn := false
 	if n >= 2 {
